@@ -1,7 +1,7 @@
 -- Obligations about the translated byte-layout functions: ds.Key.Encode / ds.DecodeKey (ds/ds.go),
 -- zset Item.encode / decodeItem (ds/zset/skiplist.go), storage Entry.encode / Entry.from (storage/entry.go):
 -- each equals the codec of the hand-written model (Model/Codec.lean) and does not panic on the stated domain.
--- functions: ds/hash decodeKeyValuePair, ds Key.Encode, ds DecodeKey, ds NewKey, ds/zset Item.encode, ds/zset decodeItem, storage Entry.encode, storage Entry.from
+-- functions: ds StringToDataType, ds/hash decodeKeyValuePair, ds Key.Encode, ds DecodeKey, ds NewKey, ds/zset Item.encode, ds/zset decodeItem, storage Entry.encode, storage Entry.from
 -- properties: C14 C11
 -- import: NodisVerif.Model.Codec
 -- import: NodisVerif.Proofs.VarintLemmas
@@ -170,5 +170,14 @@ theorem hash_decodeKeyValuePair_eq (b : Bytes) :
 
 example : hash.decodeKeyValuePair [4, 107, 49, 118] = .ok (some ⟨[107, 49], [118]⟩) := by decide
 example : hash.decodeKeyValuePair [40, 107] = .error .slice := by decide
+
+/-- `StringToDataType` is total and yields a type tag 0..5: exactly the five upper-case names map to their tags, everything else to None -/
+theorem ds_StringToDataType_range (s : Bytes) : ∃ t, ds.StringToDataType s = .ok t ∧ 0 ≤ t ∧ t ≤ 5 := by
+  unfold ds.StringToDataType
+  simp only []
+  repeat' split
+  all_goals exact ⟨_, rfl, by decide, by decide⟩
+
+example : ds.StringToDataType [90, 83, 69, 84] = .ok 4 ∧ ds.StringToDataType [122, 115, 101, 116] = .ok 0 := by decide
 
 end NodisVerif.TranslatedTie
